@@ -213,6 +213,29 @@ def main():
             (knowns if k else violations).append((v, k))
         undecided += er.get('undecided', [])
 
+    # ---- bounded stand-in: when the verifier could not decide (changed code outside its reach: new helpers, new loops,
+    # unsupported constructs), the property-level native checks run against the real code; a failure there is a real
+    # failing input.  A pass does NOT turn 'undecided' into 'ok'.
+    fallback_used = False
+    if (undecided and not violations) or tier == 'thorough':
+        for fb in pc.get('fallback', []):
+            import importlib
+            mod = importlib.import_module(fb['module'])
+            er = mod.run(prop, tier, fb)
+            fallback_used = True
+            er['summary']['role'] = 'bounded stand-in (verifier undecided)' if undecided else 'thorough tier: bounded cross-check'
+            bounded.append(er['summary'])
+            for hrec in er['summary'].get('harnesses', []):
+                oname = 'native/%s [BOUNDED: %s]' % (hrec['harness'], hrec.get('bound', ''))
+                obligations.append(oname)
+                if hrec['result'] == 'SUCCESSFUL':
+                    discharged.append(oname)
+            for v in er.get('violations', []):
+                k = known_match(v, prop, known)
+                (knowns if k else violations).append((v, k))
+            if not undecided:
+                undecided += er.get('undecided', [])
+
     wall = time.time() - t0
     # ---- report
     rc = 0
